@@ -58,6 +58,9 @@ CLAIMED = {
  "C10": dict(engine="E1+E2", technique="explicit-state BFS with clock-tick events + schedule/tick-placement exploration under a virtual clock",
    text="Histories with explicit clock ticks under three threshold/timeout settings: visibility after every call, barriers (FlushAll, FlushAllAndCommit, Close) checked against files decoded without sod code and against a second handle, deadlines checked by advancing only the virtual clock from every reached state; plus client programs against the background writer over all schedules and tick placements within the deviation bound (deleted-never-on-disk, completeness at Close, no panic).",
    note="Virtual time: nothing is claimed about wall-clock accuracy of time.Sleep; single client thread in the timing programs.", ref="6/C10"),
+ "C17": dict(engine="E4+E1+E2", technique="exhaustive enumeration of struct-shape pairs x operations; BFS with settings letters; schedule exploration of settings changes against the flusher",
+   text="All ordered pairs over 12 struct variants sharing package and type name x {0,2} objects x 21 operations (first and later) with the pair class computed by an independent reflection walk: structure change => ErrStructureChanged and byte-identical files; constraint / extension change => Create refused; compatible => data preserved. Create with every cache/async combination as alphabet letters in BFS histories with pending writes, and as client calls against the running background writer over all schedules within 2 deviations.",
+   note="12 shape variants; settings histories to depth 3 (quick) / 4.", ref="6/C17"),
 }
 
 NOT_YET = {}
